@@ -1,7 +1,7 @@
 """C16 — query response metadata names each query's real response type."""
 import random
 
-from .. import casing, common as c, corpus, l2, translate
+from .. import casing, common as c, corpus, genbins, l2, translate
 
 THEOREMS = [("Sylvia.Thm.C16", "C16." + t) for t in
             ["responses_keys", "responses_value", "explicit_resp_wins", "contract_table_is_union", "contract_keys_are_query_names", "any_of_order"]]
@@ -13,7 +13,7 @@ def run(ctx):
                                "L2 corpus harness (real QueryResponses derive, schemars) + svmodel driver"]
     ctx.assumptions += ["schemas are compared by the harness with cosmwasm_schema::schema_for!(declared type); response types of the corpus are three named structs (plain return, "
                         "explicit resp= with an aliased result type); generic / associated-type responses are covered at L1 by the `returns(..)` attributes of the C15/C17 facts streams",
-                        "generic message types' `__phantom` entry is outside the corpus (non-generic contracts)"]
+                        "the `__phantom` entry of generic message types is not sendable (serde skips the variant) and is left out of the comparison"]
     translate.regenerate()
     c.prove(ctx, ["Sylvia.Thm.C16"], THEOREMS)
     progs, exes = l2.get_corpus(ctx)
@@ -49,5 +49,6 @@ def run(ctx):
     ctx.add_stream("L2-query-responses", len(rows), len({(r[0], r[1]) for r in rows}), samples=[r[1] + " -> " + r[2] for r in rows[:3]],
                    programs=len(progs), query_entries_checked=nq, model_disagreements=ndiff, oracle_failures=bad)
     ctx.cov["traces_validated_against_impl"] += len(rows)
+    genbins.stream(ctx, "tables")
     ctx.cov["rule"] = ("response_schemas() of every part and of the contract-level query message of every generated program (0..2 interfaces; return types named directly or via resp= "
                        "with an aliased result), each entry's schema compared with the declared type's; any_of order of the three contract-level message schemas")
